@@ -257,7 +257,7 @@ theorem releaseEntry_basic {s s' : State} {k : Nat} {r : WaitResult} (h : PInvB 
           rw [(hun.others x hxk).2]
           exact h.w3 x k' hx
 
-theorem releaseSelf_basic {s s' : State} {k : Nat} (h : PInvB s) (hr : releaseSelf s k = some s') :
+theorem releaseSelf_basic {s s' : State} {t k : Nat} (h : PInvB s) (hr : releaseSelf s t k = some s') :
     releaseEntry s k .completed = some s' := by
   unfold releaseSelf at hr
   unfold releaseEntry
